@@ -24,7 +24,10 @@ import subprocess
 import collections
 
 VERIF = os.path.dirname(os.path.dirname(os.path.abspath(__file__)))
-CASE_TIMEOUT_S = float(os.environ.get("VERIF_CASE_TIMEOUT", "20"))
+# per-case budget in CPU seconds of the worker process (ITIMER_PROF): wall-clock time would turn machine load into "hangs"
+CASE_TIMEOUT_S = float(os.environ.get("VERIF_CASE_TIMEOUT", "60"))
+_TIMER = signal.ITIMER_PROF
+_TIMER_SIG = signal.SIGPROF
 MAX_FAILS_PER_SIG = 5          # stored per shard and signature (all are counted)
 MAX_REPORTED = 20              # distinct violations written per run
 
@@ -130,7 +133,7 @@ class Acc:
             self.obs_stream.append([])
         if len(self.samples) < 2 and ((self.idx * 2654435761 + self.seed * 40503) % 997 == 0):
             self.samples.append(case)
-        signal.setitimer(signal.ITIMER_REAL, CASE_TIMEOUT_S)
+        signal.setitimer(_TIMER, CASE_TIMEOUT_S)
 
     # -- called by check code
     def state(self, key):
@@ -204,7 +207,7 @@ def guarded_check(mod, case, acc):
 def run_one_shard(mod, shard, tier, seed, record_obs=False):
     acc = Acc(mod.PROP, seed, record_obs=record_obs)
     acc.shard = shard
-    signal.signal(signal.SIGALRM, _on_alarm)
+    signal.signal(_TIMER_SIG, _on_alarm)
     try:
         if hasattr(mod, "run_shard"):
             try:
@@ -221,7 +224,7 @@ def run_one_shard(mod, shard, tier, seed, record_obs=False):
                 acc.begin(case)
                 guarded_check(mod, case, acc)
     finally:
-        signal.setitimer(signal.ITIMER_REAL, 0)
+        signal.setitimer(_TIMER, 0)
     return acc.result()
 
 
@@ -471,7 +474,7 @@ def replay_case(prop, path):
                 if not (f["classifier"] and (prop, f["classifier"]) in known
                         and known[(prop, f["classifier"])].get("status") == "known")]
     acc = Acc(prop, 0)
-    signal.signal(signal.SIGALRM, _on_alarm)
+    signal.signal(_TIMER_SIG, _on_alarm)
     try:
         if rec.get("shard") is not None and hasattr(mod, "cases") and not hasattr(mod, "run_shard"):
             # Mode I: replay the shard's cases up to and including the recorded one, in enumeration order (each on fresh objects).
@@ -488,7 +491,7 @@ def replay_case(prop, path):
             acc.begin(rec["case"])
             guarded_check(mod, rec["case"], acc)
     finally:
-        signal.setitimer(signal.ITIMER_REAL, 0)
+        signal.setitimer(_TIMER, 0)
     return (1 if bad_of(acc) else 0), acc.failures
 
 
